@@ -24,6 +24,24 @@ type evaluator struct {
 	depth int
 	mode  int // +1: formula to be proved, -1: formula assumed, 0: no skolemization
 	pol   int // polarity of the current subformula (+1, -1, 0 unknown)
+	// climbTo: identifier lookup may continue from an inlined helper into its callers' scopes up
+	// to this frame (clauses of that frame's contract evaluated inside the helper)
+	climbTo *Frame
+	noLift  bool
+}
+
+// identOr is ident without the failure.
+func (ev *evaluator) identOr(name string) (v Val, ok bool) {
+	defer func() {
+		if p := recover(); p != nil {
+			if _, isE := p.(evalErr); isE {
+				ok = false
+				return
+			}
+			panic(p)
+		}
+	}()
+	return ev.ident(name), true
 }
 
 func (fr *Frame) eval(st *State, e *Expr, extra map[string]Val) (v Val, err error) {
@@ -38,6 +56,11 @@ func (fr *Frame) evalGoal(st *State, e *Expr, extra map[string]Val) (v Val, err 
 
 func (fr *Frame) evalMode(st *State, e *Expr, extra map[string]Val, mode int) (v Val, err error) {
 	ev := &evaluator{fr: fr, r: fr.r, st: st, old: fr.entry, extra: extra, bound: map[string]Val{}, mode: mode, pol: 1, scope: fr.scope}
+	if fr.liftTo != nil {
+		// a loop clause of the enclosing function's contract evaluated inside an inlined helper
+		ev.old = fr.liftTo.entry
+		ev.climbTo = fr.liftTo
+	}
 	if fr.fn != nil {
 		ev.pkg = fr.fn.Pkg
 		if ev.pkg == nil && fr.fn.Parent() != nil {
@@ -208,6 +231,7 @@ func (ev *evaluator) ident(name string) Val {
 	if v, ok := ev.extra[name]; ok {
 		return v
 	}
+	orig := name
 	for f := ev.fr; f != nil; f = f.parent {
 		if f.fn == nil {
 			continue
@@ -239,6 +263,13 @@ func (ev *evaluator) ident(name string) Val {
 	for f := ev.fr; f != nil; f = f.parent {
 		if v, ok := f.names[name]; ok {
 			return v
+		}
+		if orig != name {
+			// a name the contract itself binds (bind/entry/local) keeps its contract name even when
+			// a program variable of the same name was renamed
+			if v, ok := f.names[orig]; ok {
+				return v
+			}
 		}
 		// loop variables by source name (phi comment), preferring the scope block
 		if ev.scope != nil && f == ev.fr {
@@ -326,12 +357,30 @@ func (ev *evaluator) ident(name string) Val {
 		if f.fn != nil && f.parent.fn != nil && f.fn.Parent() == f.parent.fn {
 			continue // a function literal inlined into its enclosing function: lexical scope
 		}
+		if ev.climbTo != nil && f != ev.climbTo {
+			continue // lifted clause: the names are those of the function under contract
+		}
 		break // do not look into callers' scopes
+	}
+	if lf := ev.fr.liftFrom; lf != nil && !ev.noLift {
+		// a clause anchored at a statement of an inlined helper: names the function under contract
+		// does not define (any more) are looked up in the helper, where extracted code now lives
+		ev2 := *ev
+		ev2.fr, ev2.noLift, ev2.climbTo, ev2.scope = lf, true, ev.fr, lf.scope
+		if v, ok := ev2.identOr(name); ok {
+			return v
+		}
 	}
 	if strings.HasPrefix(name, "rpos") {
 		key := fmt.Sprintf("it|%s|%s", ev.fr.inst, name[4:])
 		if _, ok := r.memSort[key]; ok {
 			return intVal(r.get(ev.st, key))
+		}
+		if ev.climbTo != nil {
+			key = fmt.Sprintf("it|%s|%s", ev.climbTo.inst, name[4:])
+			if _, ok := r.memSort[key]; ok {
+				return intVal(r.get(ev.st, key))
+			}
 		}
 	}
 	if srt, ok := r.eng.cs.Ghosts[name]; ok {
@@ -909,6 +958,11 @@ func (ev *evaluator) call(e *Expr) Val {
 		fmt.Sscan(name[4:], &ord)
 		if f, ok := ev.fr.rangeIdxFn[ord]; ok {
 			return intVal(sApp(f, ev.term(arg(0))))
+		}
+		if ev.climbTo != nil {
+			if f, ok := ev.climbTo.rangeIdxFn[ord]; ok {
+				return intVal(sApp(f, ev.term(arg(0))))
+			}
 		}
 		ev.fail("no range iteration #%d", ord)
 	}
